@@ -2,6 +2,7 @@
 mod util;
 mod c15;
 mod c19;
+mod c17;
 use util::*;
 
 fn main() {
@@ -42,6 +43,7 @@ fn main() {
             match prop {
                 "C15" => c15::corr(&mut ctx),
                 "C19" => c19::corr(&mut ctx),
+                "C17" => c17::corr(&mut ctx),
                 "C19sweep" => c19::sweep(&mut ctx),
                 _ => {
                     eprintln!("unknown property {}", prop);
